@@ -332,6 +332,10 @@ where
     {
         let start_time = std::time::Instant::now();
 
+        // Runs left over from an earlier sort (cleanup_temp_files = false, or a sort that
+        // failed half-way) are not part of this input; their file names are reused below.
+        self.temp_files.clear();
+
         // Phase 1: Generate sorted runs using replacement selection
         self.generate_runs(input)?;
 
